@@ -57,7 +57,7 @@ func clientView(r *tunRun) *tunView {
 		case "send", "werr":
 			v.tx = append(v.tx, wireEv{At: Stamp{rec.T, rec.Seq}, F: parseFrame(rec.Data), Werr: rec.Kind == "werr"})
 		case "read":
-			v.rx = append(v.rx, wireEv{At: Stamp{rec.T, rec.Seq}, F: parseFrame(rec.Data)})
+			v.rx = append(v.rx, wireEv{At: Stamp{rec.T, rec.Seq}, F: parseFrame(wholeDatagram(rec))})
 		}
 	}
 	return v
@@ -531,6 +531,34 @@ func checkC03(v *tunView, m *connModel) {
 		}
 		return false
 	}
+	// errAckConsumed: beyond doubt the failed Send ended because it took a matching error
+	// acknowledgement (it returned in the instant the acknowledgement was read, well before its
+	// response timeout, with the tunnel alive and nobody closing it, and all its transmissions
+	// were written): the number is used up.
+	errAckConsumed := func(q *reqTx) bool {
+		if !q.call.Done || q.call.OK || m.giveUp {
+			return false
+		}
+		ret := q.call.Ret
+		if ret.T >= q.at[0].T+c.T-eps {
+			return false
+		}
+		if m.term != nil && m.term.T <= ret.T+eps || m.closeInv != nil && m.closeInv.T <= ret.T+eps {
+			return false
+		}
+		for _, x := range v.tx {
+			if x.Werr && x.At.Seq >= q.at[0].Seq && x.At.Seq <= ret.Seq {
+				return false // some write failed while it was waiting: that may be what ended it
+			}
+		}
+		for i, x := range v.rx {
+			if x.F.OK && x.F.Svc == svcTunnelRes && x.F.Status != 0 && x.F.Channel == q.ch && x.F.Seq == q.seq && m.mode[i] >= 0 &&
+				x.At.Seq > q.at[0].Seq && x.At.Seq < ret.Seq && ret.T-x.At.T <= eps && x.At.T > m.epochs[m.mode[i]].StallUntil+eps {
+				return true
+			}
+		}
+		return false
+	}
 	// (3) numbering. N1: per channel the acknowledged requests carry 0,1,2,... (an acknowledgement
 	// with an error status consumes a number too; where it is uncertain whether a failed Send
 	// consumed one, both continuations are allowed). N2: a request following an unacknowledged
@@ -635,6 +663,9 @@ func checkC03(v *tunView, m *connModel) {
 			want := map[uint8]bool{p.seq: true, 0: true}
 			if pok {
 				want = map[uint8]bool{p.seq + 1: true}
+			} else if errAckConsumed(p) {
+				want = map[uint8]bool{p.seq + 1: true, 0: true}
+				e.Probe("error-ack-consumed-a-number")
 			} else if errAck(p) {
 				want[p.seq+1] = true
 			}
